@@ -8,8 +8,10 @@ from . import core, env, tlc
 
 
 def registry():
-    from . import p_binary, p_layout, p_file
+    from . import p_binary, p_layout, p_file, p_cuts, p_writer
     return {
+        "C07": p_writer.run_c07,
+        "C06": p_cuts.run_c06,
         "C04": p_file.run_c04,
         "C05": p_file.run_c05,
         "C03": p_layout.run_c03,
